@@ -58,6 +58,19 @@ def one(sid):
         return sid, "WORKTREE FAILED " + r.stderr[-200:]
     try:
         r = run(f"git -C {wt} apply {d / 'patch.diff'}")
+        merged = False
+        if r.returncode != 0:
+            # the patch was written against the tree before a later `fix:` commit: merge it (three-way, the base blobs are in
+            # the object database); a conflict means the change and the fix touch the same lines - port it by hand
+            r = run(f"git -C {wt} apply --3way {d / 'patch.diff'}")
+            merged = r.returncode == 0 and "<<<<<<<" not in run(f"git -C {wt} diff HEAD").stdout
+            if not merged:
+                r.returncode = 1
+                run(f"git -C {wt} checkout -q -- . ; git -C {wt} reset -q --hard HEAD")
+        if merged:
+            meta["applied_by"] = "three-way merge onto the current tree (the patch predates a fix: commit)"
+        else:
+            meta.pop("applied_by", None)
         if r.returncode != 0:
             meta["detected_by"] = {"error": "patch does not apply to the current tree"}
             meta["detected"] = False
